@@ -280,14 +280,15 @@ class extract_visitor(NodeVisitor):
         handlers = []
         for h in node.handlers:
             fh = self.make_flow('except', [cur, body])
+            if h.type:
+                # evaluated when an exception arrives: after some or all of the try body
+                fh = self.visit_in_flow(h.type, fh)
             if h.name:
+                # bound once the type matched, in the region the type ends in
                 if PY2:
                     fh.add_name(AssignedName(h.name.id, body_loc(h.body), np(h), h.type))
                 else:
                     fh.add_name(AssignedName(h.name, body_loc(h.body), np(h), h.type))  # type: ignore[arg-type]
-            if h.type:
-                # evaluated when an exception arrives: after some or all of the try body
-                fh = self.visit_in_flow(h.type, fh)
             handlers.append(self.visit_in_flow(h.body, fh))
 
         orelse = self.visit_in_flow(node.orelse,
@@ -422,6 +423,9 @@ class extract_visitor(NodeVisitor):
             items = node.items
 
         for i, it in enumerate(items):
+            # the context expression may open regions of its own: the target
+            # is bound in the one it ends in
+            self.visit(it.context_expr)
             if it.optional_vars:
                 # a target is visible to the following items and to the body
                 if i + 1 < len(items):
@@ -433,8 +437,10 @@ class extract_visitor(NodeVisitor):
                         continue
                     name = nn  # type: ast.Name # type: ignore[assignment]
                     self.flow.add_name(AssignedName(name.id, loc, np(name), node))
+                self.visit(it.optional_vars)
 
-        self.generic_visit(node)
+        for st in node.body:
+            self.visit(st)
 
     visit_AsyncWith = visit_With
 
